@@ -12,6 +12,7 @@ Every case is plain JSON data; arrays are rendered from it deterministically ins
 replay file is just the case.  All randomness comes from Hypothesis draws seeded from VERIF_SEED.
 """
 import hashlib
+import importlib
 import json
 import math
 import os
@@ -47,12 +48,14 @@ class Discard(Exception):
 
 class Part:
     def __init__(self, name, check, strategy=None, enum=None, budget=None, shards=None,
-                 time_cap=None, describe=None, exhaustive=False):
+                 time_cap=None, describe=None, exhaustive=False, decode=None, tiers=('quick', 'thorough')):
         self.name = name
         self.check = check
         self.strategy = strategy
         self.enum = enum
-        self.kind = 'hyp' if strategy is not None else 'enum'
+        self.decode = decode            # fuzz parts: FuzzedDataProvider -> JSON case
+        self.tiers = tiers
+        self.kind = 'fuzz' if decode is not None else ('hyp' if strategy is not None else 'enum')
         self.budget = budget or {'quick': 200, 'thorough': 5000}
         self.shards = shards or {'quick': 4, 'thorough': 16}
         self.time_cap = time_cap or {'quick': 150, 'thorough': 3000}
@@ -275,6 +278,8 @@ def run_shard(mod, part, tier, seed, shard, nshards):
     rec = Recorder(part.name, distinct_by_construction=(part.kind == 'enum'))
     t0 = time.time()
     cap = part.time_cap[tier]
+    if part.kind == 'fuzz':
+        return _run_fuzz(mod, part, tier, seed, shard, nshards, rec, known, st, t0, cap)
     if part.kind == 'enum':
         for case in part.enum(tier, shard, nshards):
             if time.time() - t0 > cap:
@@ -299,6 +304,74 @@ def run_shard(mod, part, tier, seed, shard, nshards):
                 'skipped_after_budget': st.skipped_after_budget,
                 'wall_s': time.time() - t0})
     return out
+
+
+def _shard_result(part, shard, rec, st, t0):
+    out = rec.dump()
+    out.update({'part': part.name, 'shard': shard, 'violations': st.violations, 'fatal': st.fatal,
+                'stopped_early': st.stopped_early, 'skipped_after_budget': st.skipped_after_budget,
+                'wall_s': time.time() - t0})
+    return out
+
+
+def _run_fuzz(mod, part, tier, seed, shard, nshards, rec, known, st, t0, cap):
+    """Coverage-guided fuzzing of the same check body with atheris / libFuzzer (empty corpus, -runs=N, -seed=derived).
+
+    libFuzzer never returns from Fuzz(); the shard result is therefore written from inside the target (every 500
+    executions, at the last execution and on a violation) to the path given in BYCYCLE_VERIF_FUZZ_OUT.
+    """
+    out_path = os.environ.get('BYCYCLE_VERIF_FUZZ_OUT')
+    rec.by_construction = False
+    try:
+        sys.path.insert(0, os.path.join(VERIF, '.deps'))
+        import atheris
+    except Exception as exc:  # noqa
+        rec.labels['atheris-unavailable:%s' % type(exc).__name__] += 1
+        st.stopped_early = True
+        return _shard_result(part, shard, rec, st, t0)
+    runs = max(1, int(math.ceil(part.budget[tier] / float(nshards))))
+    corpus = (out_path or os.path.join(WORK, 'fuzz-%d' % os.getpid())) + '.corpus'
+    os.makedirs(corpus, exist_ok=True)
+    state = {'n': 0}
+
+    def dump():
+        if out_path:
+            with open(out_path + '.tmp', 'w') as fh:
+                json.dump(_shard_result(part, shard, rec, st, t0), fh, default=_json_default)
+            os.replace(out_path + '.tmp', out_path)
+
+    def target(data):
+        state['n'] += 1
+        fdp = atheris.FuzzedDataProvider(data)
+        try:
+            case = part.decode(fdp)
+        except Exception:  # noqa - undecodable input
+            case = None
+        if case is not None and time.time() - t0 <= cap:
+            try:
+                res = _run_one(part, case, rec, known, st, False)
+            except Exception:
+                dump()
+                os._exit(0)
+            if res is not None:
+                st.violations.append({'clause': res[0], 'detail': res[1], 'case': case})
+                dump()
+                os._exit(0)
+        elif case is not None:
+            st.stopped_early = True
+        if state['n'] % 500 == 0 or state['n'] >= runs:
+            dump()
+
+    import shutil
+    dump()
+    argv = [sys.argv[0], corpus, '-runs=%d' % runs, '-seed=%d' % (derive_seed(seed, mod.ID, part.name, shard) or 1),
+            '-max_len=256', '-print_final_stats=0', '-verbosity=0']
+    atheris.Setup(argv, target)
+    try:
+        atheris.Fuzz()
+    finally:
+        shutil.rmtree(corpus, ignore_errors=True)
+    return _shard_result(part, shard, rec, st, t0)
 
 
 def _bind(body, cur):
@@ -415,6 +488,8 @@ def run_property(mod, tier, seed, only_parts=None, max_procs=16):
     for part in mod.PARTS:
         if only_parts and part.name not in only_parts:
             continue
+        if tier not in part.tiers:
+            continue
         n = part.shards[tier]
         for k in range(n):
             out = os.path.join(WORK, '%s-%s-%s-%d-%d.json' % (mod.ID, part.name, tier, k, os.getpid()))
@@ -431,6 +506,7 @@ def run_property(mod, tier, seed, only_parts=None, max_procs=16):
         while queue and len(running) < max_procs:
             part, k, n, out = queue.pop(0)
             logf = open(out + '.log', 'wb')
+            env['BYCYCLE_VERIF_FUZZ_OUT'] = out
             p = subprocess.Popen(_shard_cmd(mod.ID, part.name, tier, seed, k, n, out), env=env,
                                  stdout=logf, stderr=subprocess.STDOUT)
             logf.close()
@@ -453,6 +529,9 @@ def run_property(mod, tier, seed, only_parts=None, max_procs=16):
             except OSError:
                 log = ''
             _rm(out + '.log')
+            if os.path.isdir(out + '.corpus'):
+                import shutil
+                shutil.rmtree(out + '.corpus', ignore_errors=True)
             if p.returncode != 0 or not os.path.exists(out):
                 errors.append('shard %s:%d exited %s\n%s' % (part.name, k, p.returncode, log[-3000:]))
             else:
